@@ -38,11 +38,14 @@ func (c *ctr) UnmarshalBinary(b []byte) error {
 var userYield = func(string) {}
 
 type wspec struct {
+	del    bool // rows scenario: the transaction also deletes the marker row
+	keep   bool // rows scenario: the transaction also inserts a row and keeps it
+	rounds int  // snap scenario: the transaction is run this many times in a row (0 = once)
 	insert bool // also inserts a row and deletes it again (row markers in the commit)
-	rows  []uint32
-	d     int64
-	set   bool
-	abort bool
+	rows   []uint32
+	d      int64
+	set    bool
+	abort  bool
 }
 
 func (w wspec) apply(s rowState) rowState {
@@ -168,6 +171,7 @@ func applyOrder(trace []TraceStep) map[uint32][]int {
 // scenario "rows": concurrent merging / overwriting writers, readers, stream, replica
 
 const virginRow = 32768 + 1 // a row in a block that does not exist until a writer creates it
+const markRow = 2           // a seeded row no writer updates: one writer may delete it (row markers in its commit)
 
 func initOf(off uint32) rowState {
 	if off == virginRow {
@@ -177,6 +181,7 @@ func initOf(off uint32) rowState {
 }
 
 type rowsCfg struct {
+	marker  bool // markRow is seeded; writers may carry del / keep
 	rows    []uint32
 	writers []wspec
 	readers []uint32 // row each reader looks at
@@ -207,7 +212,21 @@ func genRowsCfg(rng *Rng) rowsCfg {
 		cfg.readers = append(cfg.readers, cfg.rows[rng.Intn(len(cfg.rows))])
 	}
 	cfg.ranger = rng.Chance(25)
+	if rng.Chance(50) {
+		cfg.marker = true
+		cfg.writers[rng.Intn(nw)].del = true
+		if rng.Bool() {
+			cfg.writers[rng.Intn(nw)].keep = true
+		}
+	}
 	return cfg
+}
+
+func (cfg rowsCfg) seeded() []uint32 {
+	if cfg.marker {
+		return append(append([]uint32(nil), cfg.rows...), markRow)
+	}
+	return cfg.rows
 }
 
 func (cfg rowsCfg) String() string {
@@ -219,7 +238,8 @@ func runRows(cfg rowsCfg, ch func(int, []int) int, grace time.Duration) *scenOut
 	lg := &schedLogger{}
 	c := mkRowsColl(lg)
 	defer c.Close()
-	seedRows(c, cfg.rows)
+	seedRows(c, cfg.seeded())
+	count0 := c.Count()
 	lg.commits = nil
 	nthr := len(cfg.writers) + len(cfg.readers)
 	if cfg.ranger {
@@ -257,6 +277,17 @@ func runRows(cfg rowsCfg, ch func(int, []int) int, grace time.Duration) *scenOut
 							}
 						}
 						return nil
+					})
+				}
+				if w.del {
+					txn.DeleteAt(markRow)
+				}
+				if w.keep {
+					txn.Insert(func(r column.Row) error {
+						r.SetInt64("a", 0)
+						r.SetInt64("b", 100)
+						r.SetInt64("m", 0)
+						return r.SetRecord("rec", &ctr{})
 					})
 				}
 				if w.abort {
@@ -344,6 +375,47 @@ func runRows(cfg rowsCfg, ch func(int, []int) int, grace time.Duration) *scenOut
 			out.viol("C09", "row %d holds %+v, the fold of the committed deltas in apply order %v gives %+v", off, got, order[off>>14], exp)
 		}
 	}
+	// C02: the row markers of committed transactions are applied, those of aborted ones are not
+	wantCount := count0
+	markGone := false
+	for _, w := range cfg.writers {
+		if w.abort {
+			continue
+		}
+		if w.del {
+			wantCount--
+			markGone = true
+		}
+		if w.keep {
+			wantCount++
+		}
+	}
+	if n := c.Count(); n != wantCount {
+		out.viol("C02", "Count is %d after the run, the committed transactions' inserts and deletes give %d (started at %d)", n, wantCount, count0)
+	}
+	if cfg.marker {
+		sel := false
+		c.Query(func(txn *column.Txn) error {
+			txn.Range(func(i uint32) {
+				if i == markRow {
+					sel = true
+				}
+			})
+			return nil
+		})
+		_, has := readRow(c, markRow)
+		// an inserted row may take the freed offset over: then the offset is live again, with the new row's values
+		reused := false
+		for _, w := range cfg.writers {
+			reused = reused || (w.keep && !w.abort)
+		}
+		if markGone && sel && !reused {
+			out.viol("C02", "row %d was deleted by a committed transaction but is still selected (has values: %v)", markRow, has)
+		}
+		if !markGone && !sel {
+			out.viol("C02", "row %d is gone although no committed transaction deleted it", markRow)
+		}
+	}
 	// C15: ids distinct, non-zero, increasing per block in logger order, logger order = apply order
 	ids := map[uint64]bool{}
 	last := map[uint32]uint64{}
@@ -377,6 +449,9 @@ func runRows(cfg rowsCfg, ch func(int, []int) int, grace time.Duration) *scenOut
 			for _, r := range w.rows {
 				want[r>>14] = true
 			}
+			if w.del || w.keep {
+				want[0] = true // the marker row and the lowest free offset lie in block 0
+			}
 		}
 		got := map[uint32]int{}
 		for _, cm := range lg.commits {
@@ -398,7 +473,7 @@ func runRows(cfg rowsCfg, ch func(int, []int) int, grace time.Duration) *scenOut
 	// C06: a replica fed the stream converges
 	rep := mkRowsColl(nil)
 	defer rep.Close()
-	seedRows(rep, cfg.rows)
+	seedRows(rep, cfg.seeded())
 	for _, cm := range lg.commits {
 		rep.Replay(cm.raw)
 	}
@@ -454,6 +529,20 @@ func runSnap(cfg rowsCfg, ch func(int, []int) int, grace time.Duration) *scenOut
 	for i, w := range cfg.writers {
 		w := w
 		s.Go(i, func() {
+			for round := 0; round <= w.rounds; round++ {
+				snapWriterTxn(c, w)
+			}
+		})
+	}
+	var snap bytes.Buffer
+	var serr error
+	s.Go(nw, func() { serr = c.Snapshot(&snap) })
+	return runSnapRest(cfg, c, s, nw, ch, out, &snap, &serr)
+}
+
+func snapWriterTxn(c *column.Collection, w wspec) {
+	{
+		{
 			c.Query(func(txn *column.Txn) error {
 				for _, off := range w.rows {
 					txn.QueryAt(off, func(r column.Row) error {
@@ -484,12 +573,13 @@ func runSnap(cfg rowsCfg, ch func(int, []int) int, grace time.Duration) *scenOut
 				}
 				return nil
 			})
-		})
+		}
 	}
-	var snap bytes.Buffer
-	var serr error
-	s.Go(nw, func() { serr = c.Snapshot(&snap) })
+}
+
+func runSnapRest(cfg rowsCfg, c *column.Collection, s *Sched, nw int, ch func(int, []int) int, out *scenOut, snapP *bytes.Buffer, serrP *error) *scenOut {
 	alts, stuck := s.Run(ch)
+	snap, serr := snapP, *serrP
 	removeHook()
 	out.Trace, out.Stuck, out.Steps, out.Choices, out.Alts = s.Trace, stuck, len(s.Trace), s.Choices, alts
 	if stuck {
@@ -594,7 +684,7 @@ func runSnap(cfg rowsCfg, ch func(int, []int) int, grace time.Duration) *scenOut
 	inflight := 0
 	for _, w := range cfg.writers {
 		if w.insert {
-			inflight++
+			inflight += 1 + w.rounds
 		}
 	}
 	switch n := d.Count(); {
